@@ -641,13 +641,23 @@ namespace sim
 			// +----+------+------+----------+----------+----------+
 
 			char const* buf = m_udp_buffer.data();
+			// a datagram too short to hold the header it announces is dropped
+			std::size_t header_size = 10;
+			if (bytes_transferred >= 5 && buf[3] == 3) header_size = 7 + std::uint8_t(buf[4]);
+			if (bytes_transferred < 5 || bytes_transferred < header_size)
+			{
+				std::printf("short UDP ASSOCIATE datagram dropped\n");
+				m_udp_associate.async_receive_from(boost::asio::buffer(m_udp_buffer)
+					, m_udp_from, 0, std::bind(&socks_connection::on_read_udp, this, std::placeholders::_1, std::placeholders::_2));
+				return;
+			}
 			if (buf[2] != 0) std::printf("fragment != 0, not supported\n");
 
 			int const atyp = buf[3];
 			if (atyp == 3)
 			{
 				// hostname
-				int const len = buf[4];
+				int const len = std::uint8_t(buf[4]);
 
 				buf += 5;
 				bytes_transferred -= 5;
@@ -668,6 +678,9 @@ namespace sim
 					m_udp_associate.send_to(boost::asio::buffer(buf, bytes_transferred)
 						, udp::endpoint(it->second, port), 0, err);
 					if (err) std::printf("send_to failed: %s\n", err.message().c_str());
+					// keep receiving: this datagram is done, the next one may follow
+					m_udp_associate.async_receive_from(boost::asio::buffer(m_udp_buffer)
+						, m_udp_from, 0, std::bind(&socks_connection::on_read_udp, this, std::placeholders::_1, std::placeholders::_2));
 					return;
 				}
 
